@@ -20,11 +20,14 @@ pub struct Case {
     /// None = no -s/-S (all samples, one population)
     pub map: Option<MapSpec>,
     pub container: Container,
+    /// number of -v flags (0..3); 4 = -q, 5 = -qq
+    #[serde(default)]
+    pub verbosity: u8,
 }
 
 pub fn strategy(params: GenParams) -> impl Strategy<Value = Case> {
     let max_samples = params.max_samples;
-    (callset_strategy(params), map_draw_strategy(max_samples), container_strategy(), prop::bool::weighted(0.08)).prop_map(|(mut cs, draw, container, implicit)| {
+    (callset_strategy(params), map_draw_strategy(max_samples), container_strategy(), prop::bool::weighted(0.08), prop_oneof![6 => Just(0u8), 1 => Just(1u8), 2 => Just(2u8), 1 => Just(3u8), 1 => Just(4u8), 1 => Just(5u8)]).prop_map(|(mut cs, draw, container, implicit, verbosity)| {
         let n = cs.samples.len();
         let map = if implicit { MapSpec::implicit_all(n) } else { resolve_map(&draw, n) };
         let selected: Vec<bool> = map.assignment(n).iter().map(|a| a.is_some()).collect();
@@ -34,6 +37,7 @@ pub fn strategy(params: GenParams) -> impl Strategy<Value = Case> {
             cs,
             map: if implicit { None } else { Some(map) },
             container,
+            verbosity,
         }
     })
 }
@@ -46,6 +50,8 @@ pub fn eval(ctx: &Ctx, case: &Case) -> Verdict {
     ensure!(want.first_error.is_none(), "generator bug: ploidy error in a selected sample");
     let opts = CreateOpts {
         map: case.map.clone(),
+        verbose: if case.verbosity <= 3 { case.verbosity } else { 0 },
+        quiet: if case.verbosity >= 4 { case.verbosity - 3 } else { 0 },
         ..Default::default()
     };
     let (run, argv) = run_create(ctx, &dir, "c01", &case.cs, &case.container, &opts, Transport::Path);
@@ -94,6 +100,7 @@ pub fn eval(ctx: &Ctx, case: &Case) -> Verdict {
     if case.cs.records.is_empty() {
         pass.add_label("no-records");
     }
+    pass.add_label(format!("verbosity={}", ["default", "-v", "-vv", "-vvv", "-q", "-qq"][case.verbosity.min(5) as usize]));
     if case.cs.records.iter().any(|r| !r.has_gt) {
         pass.add_label("record-without-GT-key");
     }
@@ -142,7 +149,7 @@ fn eval_many(ctx: &Ctx, case: &ManyCase) -> Verdict {
 pub fn check(ctx: &Ctx) -> Check {
     let parts: Vec<Box<dyn Part>> = vec![Box::new(RandomPart {
         name: "create-counts",
-        rule: "generated call sets (1..3 contigs, 1..12 samples, 0..40 records; phased/unphased, missing, multiallelic, monomorphic, symbolic ALT, extra INFO/FORMAT fields, records without a GT key; non-diploid genotypes only in unselected samples; record classes all-complete / all-missing / one-missing / only-unselected-incomplete forced) x sample->population maps (1..4 populations, any subset, inline or file, or no option at all) x container {vcf, bgzf vcf, bgzf bcf, raw bcf}: exit 0, shape (2n_j+1), every cell equal to the reference model's count and printed as a bare integer; non-trivial = >=1 record counted and (unequal population sizes | strict subset | >=1 skipped record | a counted record whose only incomplete sample is unselected); distinct by (call set, map, container)",
+        rule: "generated call sets (1..3 contigs, 1..12 samples, 0..40 records; phased/unphased, missing, multiallelic, monomorphic, symbolic ALT, extra INFO/FORMAT fields, records without a GT key; non-diploid genotypes only in unselected samples; record classes all-complete / all-missing / one-missing / only-unselected-incomplete forced) x sample->population maps (1..4 populations, any subset, inline or file, or no option at all) x container {vcf, bgzf vcf, bgzf bcf, raw bcf} x log verbosity {default, -v, -vv, -vvv, -q, -qq}: exit 0, shape (2n_j+1), every cell equal to the reference model's count and printed as a bare integer; non-trivial = >=1 record counted and (unequal population sizes | strict subset | >=1 skipped record | a counted record whose only incomplete sample is unselected); distinct by (call set, map, container)",
         cases: ctx.tier.pick(8000, 300_000),
         strategy: Box::new(|| strategy(GenParams::default()).boxed()),
         eval: Box::new(eval),
